@@ -86,16 +86,35 @@ ArithM(op, args, mode) ==
   ELSE IF Len(args) = 1 THEN PBinM(op, PX(QInt(BigOfInt(IF op = "-" THEN 0 ELSE 1))), POfV(args[1]), mode)
   ELSE PFold(op, POfV(args[1]), args, 2, mode)
 Arith(op, args) == ArithM(op, args, 1)
+\* does some exact partial result of the fold leave the fixed-width exact representation (a lowest-terms component
+\* beyond 32 bits)?  From there on the implementation continues with an inexact approximation of that partial result,
+\* obtained by a conversion the property does not fix (one division in binary64 rounded again, or component-wise).
+RECURSIVE OverflowFrom(_, _, _, _)
+OverflowFrom(op, acc, args, i) ==      \* acc: an exact rational
+  IF i > Len(args) \/ ~IsExactV(args[i]) THEN FALSE
+  ELSE LET b == QOf(args[i])
+           q == CASE op = "+" -> QAdd(acc, b) [] op = "-" -> QSub(acc, b) [] op = "*" -> QMul(acc, b)
+                  [] op = "/" -> IF QIsZero(b) THEN acc ELSE QDiv(acc, b)
+           l == QLowest(q)
+       IN IF ~FitsI32(l.n) \/ ~FitsI32(l.d) THEN TRUE ELSE OverflowFrom(op, q, args, i + 1)
+ExactOverflow(op, args) ==
+  IF op \in {"+", "*"} THEN OverflowFrom(op, QInt(BigOfInt(IF op = "+" THEN 0 ELSE 1)), args, 1)
+  ELSE IF Len(args) = 1 THEN FALSE
+  ELSE IsExactV(args[1]) /\ OverflowFrom(op, QOf(args[1]), args, 2)
 
 \* ---- order
-PCmp(a, b) ==      \* -1, 0, 1, or 2 when unordered (NaN)
+\* mode: how an exact operand is converted when it meets an inexact one (1: one correctly rounded division,
+\* 2: component-wise - they differ only for ratios with a component above 2^24, soundness rule 6)
+PCmpM(a, b, mode) ==      \* -1, 0, 1, or 2 when unordered (NaN)
   IF a.x /\ b.x THEN QCmp(a.q, b.q)
-  ELSE LET x == PReal(a) y == PReal(b) IN IF IsNaN(x) \/ IsNaN(y) THEN 2 ELSE RCmp(x, y)
+  ELSE LET x == PRealM(a, mode) y == PRealM(b, mode) IN IF IsNaN(x) \/ IsNaN(y) THEN 2 ELSE RCmp(x, y)
+PCmp(a, b) == PCmpM(a, b, 1)
 RelHolds(op, c) == CASE op = "=" -> c = 0 [] op = "<" -> c = -1 [] op = ">" -> c = 1
                      [] op = "<=" -> c \in {-1, 0} [] op = ">=" -> c \in {0, 1}
-RECURSIVE ChainHolds(_, _, _)
-ChainHolds(op, args, i) == IF i >= Len(args) THEN TRUE
-                           ELSE RelHolds(op, PCmp(POfV(args[i]), POfV(args[i + 1]))) /\ ChainHolds(op, args, i + 1)
+RECURSIVE ChainHoldsM(_, _, _, _)
+ChainHoldsM(op, args, i, mode) == IF i >= Len(args) THEN TRUE
+                                  ELSE RelHolds(op, PCmpM(POfV(args[i]), POfV(args[i + 1]), mode)) /\ ChainHoldsM(op, args, i + 1, mode)
+ChainHolds(op, args, i) == ChainHoldsM(op, args, i, 1)
 
 ----------------------------------------------------------------------------
 (* Verdicts.  res: [k |-> "value", v |-> value] | [k |-> "error", kind |-> ...] | other (panic, abort). *)
@@ -125,6 +144,8 @@ ArithVerdict(op, args, res) ==
        \/ (op = "/" /\ ResIsError(res, "DivByZero") /\
            \E i \in DOMAIN args : (i > 1 \/ Len(args) = 1) /\ IsExactV(args[i]) /\ QIsZero(QOf(args[i])))
        \/ (~AllSmall(args) /\ res.k = "value" /\ IsRealV(res.v))   \* big exact operands: conversion order / intermediate overflow not fixed
+       \* an exact partial result that does not fit: the fold goes on from an approximation the property does not fix
+       \/ (ExactOverflow(op, args) /\ res.k = "value" /\ IsRealV(res.v))
 
 UnaryVerdict(op, a, res) ==
   IF IsExactV(a)
@@ -148,21 +169,23 @@ FloorDivVerdict(op, a, b, res) ==
   ELSE \* inexact operand: contagion only (the statement fixes the exact case)
        Reported(res) /\ (res.k = "value" => IsRealV(res.v))
 
-CompareVerdict(op, args, res) == ResIsBool(res, ChainHolds(op, args, 1))
+CompareVerdict(op, args, res) == ResIsBool(res, ChainHolds(op, args, 1)) \/ ResIsBool(res, ChainHoldsM(op, args, 1, 2))
 
-RECURSIVE Extreme(_, _, _, _)
-Extreme(wantMax, best, args, i) ==
+RECURSIVE ExtremeM(_, _, _, _, _)
+ExtremeM(wantMax, best, args, i, mode) ==
   IF i > Len(args) THEN best
-  ELSE LET c == PCmp(POfV(args[i]), POfV(best)) IN
-       Extreme(wantMax, IF (wantMax /\ c = 1) \/ (~wantMax /\ c = -1) THEN args[i] ELSE best, args, i + 1)
+  ELSE LET c == PCmpM(POfV(args[i]), POfV(best), mode) IN
+       ExtremeM(wantMax, IF (wantMax /\ c = 1) \/ (~wantMax /\ c = -1) THEN args[i] ELSE best, args, i + 1, mode)
+Extreme(wantMax, best, args, i) == ExtremeM(wantMax, best, args, i, 1)
 MinMaxVerdict(op, args, res) ==
-  LET e == Extreme(op = "max", args[1], args, 2) IN
+  LET e == Extreme(op = "max", args[1], args, 2)
+      e2 == ExtremeM(op = "max", args[1], args, 2, 2) IN
   IF AllExact(args) THEN ResIsExactEqual(res, QOf(e))
   ELSE IF \E i \in DOMAIN args : args[i].t = "real" /\ IsNaN(MkReal(args[i].s, args[i].e, args[i].m)) THEN Reported(res)
   ELSE \* inexact if any argument is inexact; numerically the extreme argument
        res.k = "value" /\ IsRealV(res.v) /\
        LET z == MkReal(res.v.s, res.v.e, res.v.m) IN
-       \E r \in RealsOfV(e) : RCmp(z, r) = 0
+       \E r \in RealsOfV(e) \cup RealsOfV(e2) : RCmp(z, r) = 0
 
 EqvVerdict(a, b, res) ==
   IF IsExactV(a) /\ IsExactV(b) THEN ResIsBool(res, QEq(QOf(a), QOf(b)))
